@@ -716,6 +716,7 @@ class TorControlProtocol(LineOnlyReceiver):
 
         outstanding = [self.command] + self.commands if self.command else self.commands
         self.command = None
+        self.commands = []
         self.defer = None
         for d, cmd, cmd_arg in outstanding:
             if not d.called:
